@@ -224,7 +224,6 @@ func clipS(s string, n int) string {
 // oracleLabels: received_i = sent_i xor choice_i*Delta, for every i < n.
 func oracleLabels(o *hxlib.Out, idx int, replay string, bi int, b ibatch, r ibatchRes, delta ot.Label, base, transport string) {
 	o.Count("oracle_iknp_label_batches")
-	o.Count("iknp_label_buf_" + b.rbuf.class())
 	if anyNonZeroL(r.initL) {
 		o.Count("iknp_label_buf_nonzero_before_call")
 	}
@@ -282,8 +281,6 @@ var knownBitsReported int
 // oracleBits: packed-bit form r_i = s_i xor (b_i and Delta.Bit(0)).
 func oracleBits(o *hxlib.Out, idx int, replay string, bi int, b ibatch, r ibatchRes, delta ot.Label, base, transport string) {
 	o.Count("oracle_iknp_bits_batches")
-	o.Count("iknp_bits_rbuf_" + b.rbuf.class())
-	o.Count("iknp_bits_sbuf_" + b.sbuf.class())
 	d0 := delta.Bit(0) == 1
 	need := (b.n + 63) / 64
 	if len(r.swords) != need+b.sbuf.extra || len(r.rwords) != need+b.rbuf.extra {
@@ -536,6 +533,12 @@ func iknpMode(args []string) int {
 		}
 		for _, b := range batches {
 			o.Count("iknp_kind_" + string(b.kind))
+			if b.kind == 'B' {
+				o.Count("iknp_bits_rbuf_" + b.rbuf.class())
+				o.Count("iknp_bits_sbuf_" + b.sbuf.class())
+			} else {
+				o.Count("iknp_label_buf_" + b.rbuf.class())
+			}
 			o.Count("iknp_choices_" + b.ckind)
 			countSize(o, "iknp", b.n)
 		}
